@@ -107,7 +107,7 @@ func init() {
 			if n == 1 {
 				return p.i64(0), true
 			}
-			return p.i64(int64(p.decide(n, nil))), true
+			return p.i64(int64(p.decideCtl(n))), true
 		case "Concretize":
 			return p.tt.Const(64, p.concretize(a[0].(*Term), "vapi.Concretize")), true
 		case "Assume":
